@@ -43,9 +43,9 @@ func (s *SecureChannel) VerifHandleOPNResponse(channelID, tokenID uint32, create
 	return nil
 }
 
-// VerifExpireNow back-dates the creation time of the instance installed by
-// VerifHandleOPNResponse for (channelID, tokenID) so that its expiry is due,
-// and runs the real scheduleExpiration for it synchronously (the timer fires
+// VerifExpireNow runs the real scheduleExpiration synchronously for the instance
+// installed by VerifHandleOPNResponse for (channelID, tokenID), with a creation
+// time back-dated so that its expiry is due (the timer fires
 // at once). It reports whether such an instance is known.
 func (s *SecureChannel) VerifExpireNow(channelID, tokenID uint32) bool {
 	verifRecvMu.Lock()
@@ -54,10 +54,12 @@ func (s *SecureChannel) VerifExpireNow(channelID, tokenID uint32) bool {
 	if inst == nil {
 		return false
 	}
-	s.instancesMu.Lock()
-	inst.createdAt = time.Now().Add(-2*inst.revisedLifetime - time.Hour)
-	s.instancesMu.Unlock()
-	s.scheduleExpiration(inst)
+	// a shadow of the instance (same ids) carries the back-dated creation time: the
+	// goroutine the real code started for the instance itself may not have read
+	// createdAt yet, so the shared object is left alone
+	shadow := &channelInstance{sc: s, secureChannelID: inst.secureChannelID, securityTokenID: inst.securityTokenID,
+		revisedLifetime: inst.revisedLifetime, createdAt: time.Now().Add(-2*inst.revisedLifetime - time.Hour)}
+	s.scheduleExpiration(shadow)
 	return true
 }
 
@@ -67,4 +69,3 @@ func (s *SecureChannel) VerifForget() {
 	delete(verifRecvInst, s)
 	verifRecvMu.Unlock()
 }
-
